@@ -303,7 +303,7 @@ pub fn conform(board_words: &[Vec<Word>], lay: &Layout, what: serde_json::Value,
     }
 }
 
-fn default_layout() -> Layout {
+pub fn default_layout() -> Layout {
     Layout { cuts: vec![], banks_per_event: 1, files: 1, fmt: BankFmt::B32, lz4: false, decoys: false }
 }
 
